@@ -228,3 +228,158 @@ Qed.
 Theorem slip_decode_op_errors sof st s k e st' s' k' : answers s ->
   slip_decode_op sof st s k = Some (DFail e, st', s', k') -> e = EILSEQ \/ src_error s e \/ snk_error k e.
 Proof. apply decode_loop_errors. Qed.
+
+(* ---------- the operational decoder under driver faults refines the structural decoder ---------- *)
+(* sinks that take the octet or fail (no zero-length answers); sources that never report EILSEQ themselves *)
+Definition sink_answers (k : snk) : Prop := Forall ev_answers (k_script k).
+Definition no_ilseq (s : src) : Prop := ~ In (Fail EILSEQ) (s_script s).
+
+Lemma put_octet_rc_answers k x e k' : sink_answers k -> put_octet_rc k x = (e, k') ->
+  sink_answers k' /\ (e = None -> k_got k' = k_got k ++ [x]) /\ (forall err, e = Some err -> k_got k' = k_got k).
+Proof.
+  unfold sink_answers, put_octet_rc, sink_put_octet, snk_octet_call, snk_chunk_call. intros Ha.
+  destruct (k_script k) as [|ev0 sc] eqn:Es; cbn [pop_ev].
+  - destruct (k_octet k); intros [= <- <-]; cbn [snk_with k_script k_got]; (split; [constructor|]); (split; [intros _|discriminate]); try reflexivity;
+      cbn [length N.of_nat Pos.of_succ_nat]; unfold SSIZE_MAX; reflexivity.
+  - inversion Ha as [|? ? He Hr]; subst.
+    destruct (k_octet k); destruct ev0 as [g| | | |e0]; cbn in He; try contradiction; intros [= <- <-]; cbn [snk_with k_script k_got];
+      (split; [exact Hr|]); (split; [try discriminate; intros _|try discriminate; intros err _]); try reflexivity;
+      cbn [length N.of_nat Pos.of_succ_nat]; replace (N.min g 1) with 1 by lia; reflexivity.
+Qed.
+
+Lemma get_octet_no_ilseq s r d s' : no_ilseq s -> source_get_octet s = (r, d, s') -> no_ilseq s' /\ r <> DErr EILSEQ.
+Proof.
+  unfold no_ilseq, source_get_octet, src_octet_call, src_chunk_call. intros Hn.
+  destruct (pop_ev (s_script s)) as [ev0 sc] eqn:Ep.
+  assert (Hin : forall x, In x sc -> In x (s_script s)) by (intros x; apply (pop_in _ _ _ _ Ep)).
+  assert (Hne : ev0 <> Fail EILSEQ).
+  { intros ->. destruct (s_script s) as [|a r0]; cbn in Ep; [discriminate|]. injection Ep as -> <-. apply Hn. left. reflexivity. }
+  destruct (s_octet s); destruct ev0 as [g| | | |e0]; try (destruct (s_stream s));
+    intros [= <- <- <-]; cbn [src_with s_script]; (split; [intros Hi; apply Hn, Hin, Hi|]); try discriminate;
+    intros [= ->]; apply Hne; reflexivity.
+Qed.
+
+(* what one octet-decoding step consumed, classified *)
+Lemma decode_octet_shape s o s' : answers s -> no_ilseq s -> decode_octet s = (o, s') ->
+  answers s' /\ no_ilseq s' /\
+  exists d, s_stream s = d ++ s_stream s' /\
+    match o with
+    | OData x => (d = [x] /\ (x =? RAW_ESC) = false /\ (x =? RAW_EOF) = false) \/
+                 (d = [RAW_ESC; ESC_EOF] /\ x = RAW_EOF) \/ (d = [RAW_ESC; ESC_ESC] /\ x = RAW_ESC)
+    | OEnd => d = [RAW_EOF]
+    | OIlseq x => d = [RAW_ESC; x] /\ (x =? ESC_EOF) = false /\ (x =? ESC_ESC) = false
+    | OErr e => (d = [] \/ d = [RAW_ESC]) /\ e <> EILSEQ
+    end.
+Proof.
+  intros Ha Hn. unfold decode_octet. destruct (source_get_octet s) as [[r1 d1] s1] eqn:G1.
+  destruct (get_octet_answers _ _ _ _ Ha G1) as [Ha1 L1]. destruct (get_octet_no_ilseq _ _ _ _ Hn G1) as [Hn1 Ne1].
+  destruct (get_octet_step _ _ _ _ G1) as (P1 & _).
+  destruct r1 as [c1|e1].
+  2:{ intros [= <- <-]. split; [exact Ha1|]. split; [exact Hn1|]. destruct (get_octet_measure _ _ _ _ G1) as (_ & _ & Z). rewrite (Z e1 eq_refl) in P1.
+      exists []. split; [symmetry; exact P1|]. split; [left; reflexivity|]. intros ->. apply Ne1. reflexivity. }
+  specialize (L1 c1 eq_refl). destruct d1 as [|first t1]; [discriminate|]. destruct t1; [|discriminate].
+  destruct (first =? RAW_ESC) eqn:E1.
+  - apply N.eqb_eq in E1. subst first.
+    destruct (source_get_octet s1) as [[r2 d2] s2] eqn:G2.
+    destruct (get_octet_answers _ _ _ _ Ha1 G2) as [Ha2 L2]. destruct (get_octet_no_ilseq _ _ _ _ Hn1 G2) as [Hn2 Ne2].
+    destruct (get_octet_step _ _ _ _ G2) as (P2 & _).
+    destruct r2 as [c2|e2].
+    2:{ intros [= <- <-]. split; [exact Ha2|]. split; [exact Hn2|]. destruct (get_octet_measure _ _ _ _ G2) as (_ & _ & Z). rewrite (Z e2 eq_refl) in P2.
+        exists [RAW_ESC]. split; [rewrite <- P1, <- P2; reflexivity|]. split; [right; reflexivity|]. intros ->. apply Ne2. reflexivity. }
+    specialize (L2 c2 eq_refl). destruct d2 as [|second t2]; [discriminate|]. destruct t2; [|discriminate].
+    assert (Hs : s_stream s = [RAW_ESC; second] ++ s_stream s2) by (rewrite <- P1, <- P2; reflexivity).
+    destruct (second =? ESC_EOF) eqn:E2; [|destruct (second =? ESC_ESC) eqn:E3]; intros [= <- <-]; (split; [exact Ha2|]); (split; [exact Hn2|]);
+      exists [RAW_ESC; second]; (split; [exact Hs|]).
+    + apply N.eqb_eq in E2. subst second. right; left. auto.
+    + apply N.eqb_eq in E3. subst second. right; right. auto.
+    + auto.
+  - destruct (first =? RAW_EOF) eqn:E2; intros [= <- <-]; (split; [exact Ha1|]); (split; [exact Hn1|]); exists [first]; (split; [symmetry; exact P1|]).
+    + apply N.eqb_eq in E2. subst first. reflexivity.
+    + left. auto.
+Qed.
+
+Lemma transition_shape s r s' : answers s -> no_ilseq s -> transition s = (r, s') ->
+  answers s' /\ no_ilseq s' /\
+  match r with
+  | inr b => exists x, s_stream s = x :: s_stream s' /\ b = (x =? RAW_EOF)
+  | inl e => s_stream s = s_stream s' /\ e <> EILSEQ
+  end.
+Proof.
+  intros Ha Hn. unfold transition. destruct (source_get_octet s) as [[r1 d1] s1] eqn:G1.
+  destruct (get_octet_answers _ _ _ _ Ha G1) as [Ha1 L1]. destruct (get_octet_no_ilseq _ _ _ _ Hn G1) as [Hn1 Ne1].
+  destruct (get_octet_step _ _ _ _ G1) as (P1 & _).
+  destruct r1 as [c1|e1].
+  - specialize (L1 c1 eq_refl). destruct d1 as [|x t1]; [discriminate|]. destruct t1; [|discriminate].
+    intros [= <- <-]. split; [exact Ha1|]. split; [exact Hn1|]. exists x. split; [symmetry; exact P1|reflexivity].
+  - intros [= <- <-]. split; [exact Ha1|]. split; [exact Hn1|]. destruct (get_octet_measure _ _ _ _ G1) as (_ & _ & Z). rewrite (Z e1 eq_refl) in P1.
+    split; [symmetry; exact P1|]. intros ->. apply Ne1. reflexivity.
+Qed.
+
+(* the verdict of one call, in terms of the structural decoder run on exactly the octets the call consumed *)
+Definition refines (sof : bool) (st : sstate) (got consumed : list N) (rc : drc) (st' : sstate) (got' : list N) : Prop :=
+  match rc with
+  | DFrame => pdecode sof st consumed got = (PFrame, got', [], st')
+  | DFail e =>
+      (e = EILSEQ /\ pdecode sof st consumed got = (PIlseq, got', [], st')) \/
+      (exists out, pdecode sof st consumed got = (PNoData, out, [], st') /\ (out = got' \/ exists x, out = got' ++ [x]))
+  end.
+
+Lemma refines_shift sof st got d c2 st1 got1 rc st' got' :
+  pdecode sof st (d ++ c2) got = pdecode sof st1 c2 got1 ->
+  refines sof st1 got1 c2 rc st' got' -> refines sof st got (d ++ c2) rc st' got'.
+Proof. intros E. unfold refines. rewrite E. auto. Qed.
+
+Theorem decode_loop_refines : forall fuel sof st s k rc st' s' k', answers s -> no_ilseq s -> sink_answers k ->
+  decode_loop fuel sof st s k = Some (rc, st', s', k') ->
+  exists consumed, s_stream s = consumed ++ s_stream s' /\ refines sof st (k_got k) consumed rc st' (k_got k').
+Proof.
+  induction fuel as [|f IH]; intros sof st s k rc st' s' k' Ha Hn Hk H; [discriminate|]. cbn [decode_loop] in H.
+  destruct st.
+  - (* SearchStart *)
+    destruct (transition s) as [r s1] eqn:T. destruct (transition_shape _ _ _ Ha Hn T) as (Ha1 & Hn1 & Sh).
+    destruct r as [e|[|]].
+    + destruct Sh as [P Ne]. injection H as <- <- <- <-. exists []. split; [exact P|]. right. exists (k_got k). split; [reflexivity|left; reflexivity].
+    + destruct Sh as (x & P & Hx). destruct (IH _ _ _ _ _ _ _ _ Ha1 Hn1 Hk H) as (c2 & P2 & R2).
+      exists ([x] ++ c2). split; [rewrite P, P2; reflexivity|]. apply (refines_shift sof SearchStart (k_got k) [x] c2 Normal (k_got k)); [|exact R2].
+      cbn [app pdecode]. rewrite <- Hx. reflexivity.
+    + destruct Sh as (x & P & Hx). injection H as <- <- <- <-. exists [x]. split; [rewrite P; reflexivity|]. left. split; [reflexivity|].
+      cbn [pdecode]. rewrite <- Hx. reflexivity.
+  - (* SearchEnd *)
+    destruct (transition s) as [r s1] eqn:T. destruct (transition_shape _ _ _ Ha Hn T) as (Ha1 & Hn1 & Sh).
+    destruct r as [e|[|]].
+    + destruct Sh as [P Ne]. injection H as <- <- <- <-. exists []. split; [exact P|]. right. exists (k_got k). split; [reflexivity|left; reflexivity].
+    + destruct Sh as (x & P & Hx). destruct (IH _ _ _ _ _ _ _ _ Ha1 Hn1 Hk H) as (c2 & P2 & R2).
+      exists ([x] ++ c2). split; [rewrite P, P2; reflexivity|].
+      apply (refines_shift sof SearchEnd (k_got k) [x] c2 (if sof then SearchStart else Normal) (k_got k)); [|exact R2].
+      cbn [app pdecode]. rewrite <- Hx. reflexivity.
+    + destruct Sh as (x & P & Hx). destruct (IH _ _ _ _ _ _ _ _ Ha1 Hn1 Hk H) as (c2 & P2 & R2).
+      exists ([x] ++ c2). split; [rewrite P, P2; reflexivity|]. apply (refines_shift sof SearchEnd (k_got k) [x] c2 SearchEnd (k_got k)); [|exact R2].
+      cbn [app pdecode]. rewrite <- Hx. reflexivity.
+  - (* Normal *)
+    destruct (decode_octet s) as [o s1] eqn:D. destruct (decode_octet_shape _ _ _ Ha Hn D) as (Ha1 & Hn1 & d & P & Sh).
+    destruct o as [x| |x|e].
+    + destruct (put_octet_rc k x) as [e2 k1] eqn:E. destruct (put_octet_rc_answers _ _ _ _ Hk E) as (Hk1 & G1 & G2).
+      assert (Hpd : forall c2, pdecode sof Normal (d ++ c2) (k_got k) = pdecode sof Normal c2 (k_got k ++ [x])).
+      { intros c2. destruct Sh as [(-> & X1 & X2)|[(-> & ->)|(-> & ->)]]; cbn [app pdecode]; [rewrite X1, X2; reflexivity|reflexivity|reflexivity]. }
+      destruct e2 as [err|].
+      * injection H as <- <- <- <-. exists d. split; [exact P|]. right. exists (k_got k ++ [x]). split.
+        -- rewrite <- (app_nil_r d), Hpd. reflexivity.
+        -- right. exists x. rewrite (G2 err eq_refl). reflexivity.
+      * destruct (IH _ _ _ _ _ _ _ _ Ha1 Hn1 Hk1 H) as (c2 & P2 & R2). rewrite (G1 eq_refl) in R2.
+        exists (d ++ c2). split; [rewrite P, P2, app_assoc; reflexivity|].
+        apply (refines_shift sof Normal (k_got k) d c2 Normal (k_got k ++ [x])); [apply Hpd|exact R2].
+    + subst d. injection H as <- <- <- <-. exists [RAW_EOF]. split; [exact P|]. cbn [refines pdecode]. reflexivity.
+    + destruct Sh as (-> & X1 & X2). injection H as <- <- <- <-. exists [RAW_ESC; x]. split; [exact P|]. left. split; [reflexivity|].
+      cbn [pdecode]. rewrite X1, X2. reflexivity.
+    + destruct Sh as [Hd Ne].
+      assert (Hr : Some (DFail e, Normal, s1, k) = Some (rc, st', s', k')) by (destruct e; try exact H; contradiction Ne; reflexivity).
+      injection Hr as <- <- <- <-. exists d. split; [exact P|]. right. exists (k_got k). split; [|left; reflexivity].
+      destruct Hd as [->| ->]; reflexivity.
+Qed.
+
+(* one call of the decoder as the library runs it, under driver faults: what it did is what the structural decoder does on the
+   octets it consumed - a frame, an invalid escape, or a stop in mid-frame with at most the octet in flight not delivered *)
+Theorem slip_decode_op_refines sof st s k rc st' s' k' : answers s -> no_ilseq s -> sink_answers k ->
+  slip_decode_op sof st s k = Some (rc, st', s', k') ->
+  exists consumed, s_stream s = consumed ++ s_stream s' /\ refines sof st (k_got k) consumed rc st' (k_got k').
+Proof. apply decode_loop_refines. Qed.
